@@ -28,6 +28,7 @@ type Obligation struct {
 	Model  string   `json:"model,omitempty"`
 	Reason string   `json:"reason,omitempty"`
 	Cover  bool     `json:"cover,omitempty"`
+	Retried bool    `json:"retried,omitempty"` // decided only in the second, unhurried pass
 	Inputs map[string]string `json:"inputs,omitempty"` // term for each parameter, to extract models
 	Query  string   `json:"-"`
 	InputTypes map[string]types.Type `json:"-"`
